@@ -282,7 +282,9 @@ def witness_classes(line, cfg):
             continue
         k, a = t[2], t[3]
         if k == "exec":
-            prio[a] = _num(t[7])
+            # ExecImpl::start() applies the priority only to single-thread execs; execute_thread() leaves the LMM penalty
+            # at 1/threads (variable_new), i.e. "priority = threads" as far as update_variable_penalty() is concerned
+            prio[a] = float(int(t[8])) if int(t[8]) > 1 else _num(t[7])
         elif k == "comm":
             r = routes.get((t[4], t[5]), [])
             if any(l in prof_links for l in r) and sum(lat[l] for l in r) > 0:
